@@ -5,6 +5,7 @@ import numpy as np
 from hypothesis import strategies as st
 
 from .. import gen, series
+from .. import core
 from ..core import call, drive
 from ..tissue import PRNG
 
@@ -147,7 +148,7 @@ def check_case(p, ctx):
         guess[k] = g
     centres = {k: frame_centre(S.R[k]) for k in range(n)}
     fsys = call(fs.ForSys, S.frames, cm=p["cm"], initial_guess={k: dict(v) for k, v in guess.items()})
-    mesh = fsys.mesh
+    mesh = core.mesh_of(fsys)
     moved_frac = []
     conditional = True
     for k in range(n - 1):
